@@ -16,13 +16,13 @@ RULE = (
     "x key configuration (4 KDF hashes x {nonce, DH RFC5114, ECDH_P256, ECDH_P384}) x clock {mid-interval, first/last tick of an L2, L1, L0 interval} (quick: 4) x layout {in-envelope, trailing} x API {sync, async}. "
     "nonce mode: offline KeyCache with the root key; public-key mode: protect through the reference DC answering 'not authorised' (group public key only), unprotect with the offline cache. trailing layout: "
     "DPAPINGBlob.unpack(blob).pack(blob_in_envelope=False) fed back to unprotect. Oracle: unprotect(protect(x)) == x and the independent reference decryptor opens the same blob from the root key alone and the blob names the interval of the virtual clock. "
-    "Every cell is distinct by construction; non-trivial = all (each runs protect, two unprotects and the reference decryptor)."
+    "Nonce-mode cells are additionally run twice in a row on one KeyCache shared along the whole shard (cache history x clock x SID). Every cell is distinct by construction; non-trivial = all (each runs protect, two unprotects and the reference decryptor)."
 )
 ASSUME = ["ref/cms.py + ref/gkdi.py calibrated on the 16 Windows vectors", "clock seam time.time_ns; DC with scripted security context for the public-key configurations"]
 BOUND = {"quick": "8 lengths x 4 SID shapes x 16 configs x 4 clocks x 2 layouts x 2 APIs", "thorough": "21 lengths x 45 SID shapes x 16 configs x 7 clocks x 2 x 2 (SID shapes cycled over the other dimensions for DH)"}
 
 LENS_T = [0, 1, 15, 16, 17, 31, 32, 33, 111, 112, 127, 128, 239, 240, 255, 256, 65519, 65520, 65535, 65536, 65537]  # incl. lengths whose ciphertext+tag (len+16) sits on a DER length-form boundary
-LENS_Q = [0, 1, 16, 33, 112, 240, 256, 65537]
+LENS_Q = [0, 1, 16, 33, 112, 240, 256, 65521, 65535, 65537]
 HASHES = ["SHA1", "SHA256", "SHA384", "SHA512"]
 MODES = ["nonce", "DH", "ECDH_P256", "ECDH_P384"]
 L0 = 364
@@ -50,12 +50,12 @@ def _ctx(u, p, **kw):
     return secctx.ScriptedContext([b"C1"], 16)
 
 
-def roundtrip(rk: gkdi.RootKey, mode: str, sid: str, pt: bytes, ft: int, api: str):
+def roundtrip(rk: gkdi.RootKey, mode: str, sid: str, pt: bytes, ft: int, api: str, cache=None):
     """-> (violation or None, blob)"""
     import dpapi_ng
     from dpapi_ng._blob import DPAPINGBlob
 
-    cache = seams.make_cache(rk)
+    cache = cache if cache is not None else seams.make_cache(rk)
     run = (lambda c: c) if api == "sync" else vloop.run
     prot = dpapi_ng.ncrypt_protect_secret if api == "sync" else dpapi_ng.async_ncrypt_protect_secret
     unprot = dpapi_ng.ncrypt_unprotect_secret if api == "sync" else dpapi_ng.async_ncrypt_unprotect_secret
@@ -134,6 +134,8 @@ def run_shard(shard, tier, seed, acc) -> None:
     _, h, m, part, parts = shard
     rk = mk_root(seed, h, m)
     n = 0
+    shared = seams.make_cache(rk)  # one cache kept along the whole shard (many SIDs, clock values, both APIs) next to a fresh one per cell
+    hist: t.List[t.Any] = []
     for idx, (ln, sid, ft, api) in enumerate(cells(tier, m)):
         if idx % parts != part or acc.too_many():
             continue
@@ -144,6 +146,17 @@ def run_shard(shard, tier, seed, acc) -> None:
             acc.outcome("violation")
         else:
             acc.outcome("roundtrip-ok")
+        if m == "nonce" and ln <= 256:
+            # the same cell twice in a row on the shared cache (a second protect in the same interval with the same SID)
+            for rep in (0, 1):
+                v2, _ = roundtrip(rk, m, sid, plaintext(seed, ln), ft, api, cache=shared)
+                n += 1
+                if v2:
+                    acc.violate("shared-cache." + v2[0], ["shard", shard, tier], {**v2[1], "cell": [h, m, ln, sid, ft, api], "repeat": rep, "cells_before": len(hist)}, size=10**5)
+                    acc.outcome("violation")
+                else:
+                    acc.outcome("roundtrip-ok-shared-cache")
+            hist.append([ln, sid, ft, api])
     acc.ev(n)
     acc.nt_counted(n)
     acc.sample({"hash": h, "mode": m, "plaintext_len": ln, "sid": sid, "filetime": ft, "api": api})
